@@ -106,7 +106,7 @@ def run(tier, seed, jobs):
                   "\\Recent and the derived `unseen` marker are not compared with a model value, except: `unseen` present iff \\Seen absent; "
                   "\\Recent never comes back for a message within one session's stream or in .mh_sequences, and no STORE changes the folder's Recent sequence",
                   "a session's flag knowledge is the last FLAGS value it was sent per message; checked when each command ends and at sync points"],
-                 time_budget=85 if tier == "quick" else 1500)
+                 time_budget=85 if tier == "quick" else 900)
 
 
 def replay(rec):
